@@ -668,11 +668,15 @@ func parseNumber(s []byte) (Object, error) {
 		return Integer(x), nil
 	}
 
-	y, err := strconv.ParseFloat(string(s), 64)
-	if err == strconv.ErrRange {
-		return nil, &postScriptError{eLimitcheck, fmt.Sprintf("number %q out of range", s)}
-	} else if err == nil && !math.IsInf(y, 0) && !math.IsNaN(y) {
-		return Real(y), nil
+	// strconv.ParseFloat accepts more than PostScript does, e.g. hexadecimal
+	// floats and underscores between digits
+	if isRealSyntax(s) {
+		y, err := strconv.ParseFloat(string(s), 64)
+		if err == strconv.ErrRange {
+			return nil, &postScriptError{eLimitcheck, fmt.Sprintf("number %q out of range", s)}
+		} else if err == nil && !math.IsInf(y, 0) && !math.IsNaN(y) {
+			return Real(y), nil
+		}
 	}
 
 	mm := radixNumberRe.FindSubmatch(s)
@@ -688,5 +692,14 @@ func parseNumber(s []byte) (Object, error) {
 
 	return nil, &postScriptError{eSyntaxerror, fmt.Sprintf("invalid number %q", s)}
 }
+
+// isRealSyntax checks whether s has the form of a PostScript real or
+// decimal integer: an optional sign, digits with an optional decimal point,
+// and an optional exponent.
+func isRealSyntax(s []byte) bool {
+	return realNumberRe.Match(s)
+}
+
+var realNumberRe = regexp.MustCompile(`^[+-]?([0-9]+\.?[0-9]*|\.[0-9]+)([eE][+-]?[0-9]+)?$`)
 
 var radixNumberRe = regexp.MustCompile(`^([0-9]{1,2})#([0-9a-zA-Z]+)$`)
